@@ -635,7 +635,15 @@ fn matrix_cells(rng: &mut Rng, shard: usize, nshards: usize, budget: usize) -> V
             cells.push((
                 format!("for {} {}..{}", t.name(), from, to),
                 format!("matrix|for|{}", if by == 0 { "step0" } else if to == t.tmax() || to == t.tmin() { "to-type-limit" } else { "plain" }),
-                format!("PROGRAM Main\nVAR\n  i : {};\n  n : DINT;\nEND_VAR\nFOR i := {} TO {}{by_s} DO\n  n := n + DINT#1;\nEND_FOR;\nEND_PROGRAM\n", t.name(), gen::lit_text(t, Sv::I(from)), gen::lit_text(t, Sv::I(to))),
+                {
+                    // bounds without a literal form (most negative LINT, ULINT above 2^63-1) are computed into variables first
+                    let ((fi, fp), (ti, tp)) = (init_for("lo", t, Sv::I(from)), init_for("hi", t, Sv::I(to)));
+                    if fp.is_empty() && tp.is_empty() {
+                        format!("PROGRAM Main\nVAR\n  i : {};\n  n : DINT;\nEND_VAR\nFOR i := {fi} TO {ti}{by_s} DO\n  n := n + DINT#1;\nEND_FOR;\nEND_PROGRAM\n", t.name())
+                    } else {
+                        format!("PROGRAM Main\nVAR\n  i : {tn};\n  n : DINT;\n  lo : {tn} := {fi};\n  hi : {tn} := {ti};\nEND_VAR\n{fp}{tp}FOR i := lo TO hi{by_s} DO\n  n := n + DINT#1;\nEND_FOR;\nEND_PROGRAM\n", tn = t.name())
+                    }
+                },
             ));
         }
     }
@@ -684,6 +692,32 @@ fn matrix_cells(rng: &mut Rng, shard: usize, nshards: usize, budget: usize) -> V
                     lit = gen::lit_text(s, v)
                 ),
             ));
+        }
+    }
+    // the same write paths with the destination declared through an alias type or a subrange of the target type
+    for t in gen::NUMERIC {
+        for s in t.sources() {
+            for wrap in ["alias", "subrange"] {
+                if wrap == "subrange" && !t.is_int() {
+                    continue;
+                }
+                n += 1;
+                if n % nshards != shard {
+                    continue;
+                }
+                let v = if s.is_real() { Sv::F(2.0) } else { Sv::I(1) };
+                let (tdecl, dty) = if wrap == "alias" { (format!("TYPE A0 : {}; END_TYPE\n", t.name()), "A0".to_string()) } else { (String::new(), format!("{}(0..100)", t.name())) };
+                cells.push((
+                    format!("{wrap} {} <- {}", t.name(), s.name()),
+                    format!("matrix|{wrap}|{}", if s == t { "same-type" } else { "widening" }),
+                    format!(
+                        "{tdecl}TYPE S0 : STRUCT f : {d}; END_STRUCT END_TYPE\nFUNCTION F : {d}\nVAR_INPUT p : {d}; END_VAR\nF := p;\nEND_FUNCTION\nFUNCTION_BLOCK B\nVAR_INPUT i : {d}; END_VAR\nVAR_OUTPUT o : {d}; END_VAR\nVAR keep : {d}; END_VAR\no := i;\nkeep := i;\nEND_FUNCTION_BLOCK\nPROGRAM Main\nVAR\n  src : {s} := {lit};\n  dst : {d};\n  arr : ARRAY[0..1] OF {d};\n  st : S0;\n  r1 : {d};\n  r2 : {d};\n  fb : B;\nEND_VAR\ndst := src;\narr[1] := src;\nst.f := src;\nr1 := F(src);\nr2 := F(p := src);\nfb(i := src);\nr1 := fb.o;\nEND_PROGRAM\n",
+                        d = dty,
+                        s = s.name(),
+                        lit = gen::lit_text(s, v)
+                    ),
+                ));
+            }
         }
     }
     // feature-switch cells: the deviations the generator otherwise avoids
